@@ -52,6 +52,20 @@ Theorem signal_mode : forall w i p,
   (p_mode p <> 2 -> exists p', get_proc (after_signal w i) i = Some p').
 Proof. exact L_signal_mode. Qed.
 
+(* registry::cleanup_tempfiles (the variant for use outside of signal handlers) has the same effect and frame *)
+Theorem cleanup_removes_registered : forall w i p id t,
+  get_proc w i = Some p ->
+  reg_get (p_reg p) id = Some (RReg t) -> t_owner t = p_pid p ->
+  fs_get (w_fs (after_cleanup w i)) (t_path t) = None.
+Proof. exact L_cleanup_removes_registered. Qed.
+
+Theorem cleanup_touches_only_own_registered : forall w i p path,
+  get_proc w i = Some p ->
+  fs_get (w_fs (after_cleanup w i)) path = fs_get (w_fs w) path \/
+  (fs_get (w_fs (after_cleanup w i)) path = None /\
+   exists id t, reg_get (p_reg p) id = Some (RReg t) /\ t_owner t = p_pid p /\ t_path t = path).
+Proof. exact L_cleanup_touches_only_own_registered. Qed.
+
 (* ---- every reachable world: any number of processes, threads and steps, any interleaving ---- *)
 
 (* all registry keys are below NEXT_MAP_INDEX, so the handler's loop 0..NEXT_MAP_INDEX sees all of them *)
